@@ -15,8 +15,7 @@ Scanner create_scanner(FileContent &in, FileName key) {
   Scanner s;
   s.si = new ScannerInfo{key};
   yylex_init(&s.s);
-  const char *str = in.c_str();
-  s.buf = yy_scan_string(str, s.s);
+  s.buf = yy_scan_bytes(in.data(), (int)in.size(), s.s);
   yyset_lineno(1, s.s);
   yyset_extra(s.si, s.s);
   s.f = key;
